@@ -517,7 +517,25 @@ def run_case_isolated(ctx, case):
                 json.dump({"harness_error": traceback.format_exc()}, f)
             code = 3
         os._exit(code)
-    _, status = os.waitpid(pid, 0)
+    import signal
+    import time
+
+    deadline = time.monotonic() + 120
+    status = None
+    while True:
+        done, st = os.waitpid(pid, os.WNOHANG)
+        if done:
+            status = st
+            break
+        if time.monotonic() > deadline:
+            # not a verdict (no wall-clock verdicts): recorded so that the case can be examined
+            os.kill(pid, signal.SIGKILL)
+            os.waitpid(pid, 0)
+            ctx.count("child_watchdog_killed")
+            ctx.note(f"case {case} (seed {ctx.seed}) did not finish within 120 s and was killed")
+            os.unlink(path)
+            return
+        time.sleep(0.002)
     try:
         data = json.loads(open(path).read() or "{}")
     except Exception:  # noqa: BLE001
